@@ -4,11 +4,15 @@ import (
 	"bufio"
 	"fmt"
 	"io"
+	"os"
 	"os/exec"
 	"strconv"
 	"strings"
 	"time"
 )
+
+// SlowQuery, when non-zero, makes queries slower than it be logged to stderr.
+var SlowQuery time.Duration
 
 type Result int
 
@@ -244,7 +248,16 @@ func (s *Session) Check(extras []*Term, vars []*Term) (Result, map[string]uint64
 	if s.cmd != nil {
 		s.send("(pop 1)")
 	}
-	s.Stats.SolverTime += time.Since(t0)
+	el := time.Since(t0)
+	s.Stats.SolverTime += el
+	if SlowQuery > 0 && el > SlowQuery {
+		var sb strings.Builder
+		for _, e := range extras {
+			sb.WriteString(e.String())
+			sb.WriteString(" ; ")
+		}
+		fmt.Fprintf(os.Stderr, "[slow query %.1fs -> %v, %d asserted] %s\n", el.Seconds(), r, s.asserted, sb.String())
+	}
 	s.Stats.Queries++
 	switch r {
 	case Sat:
